@@ -13,6 +13,8 @@ mod c05;
 mod c08;
 mod cl;
 mod c11;
+mod c02;
+mod c03;
 
 use util::Ctx;
 
@@ -47,6 +49,8 @@ fn main() {
         ("gen", "C05") => c05::gen(&mut ctx),
         ("gen", "C08") => c08::gen(&mut ctx),
         ("gen", "C11") => c11::gen(&mut ctx),
+        ("gen", "C02") => c02::gen(&mut ctx),
+        ("gen", "C03") => c03::gen(&mut ctx),
         _ => { eprintln!("unknown command"); std::process::exit(2); }
     }
     ctx.finish(stats.as_deref());
